@@ -15,7 +15,7 @@ var longComp = strings.Repeat("L", 60) + "-" + strings.Repeat("n", 59)
 var nameUniverse = []string{"a", "ab", "a_", "a%", "a.b", "a b", "ä", "aä", ".h", "%", "_", "x.gz", "y.zst", "z.age", "w.pgp", longComp, "A", "AB", "Ä"} // incl. names that differ only in case
 
 // exotic components: characters that are special to tar, SQL, shells, globbing, Go path handling or terminals
-var exoticNames = []string{"...", "..a", "a\nb", "a\\b", "it's", "a*", "a?", "[a]", "a:b", "trail ", "dot.", "\U0001F600", "a\tb", "\"q\"", "-rf", "~", "a;b", "$x", "a=b", "#", "caf\xe9-latin1", strings.Repeat("z", 300)}
+var exoticNames = []string{"...", "..a", "a\nb", "a\\b", "it's", "a*", "a?", "[a]", "a:b", "trail ", "dot.", "\U0001F600", "a\tb", "\"q\"", "-rf", "~", "a;b", "$x", "a=b", "#", "caf\xe9-latin1", strings.Repeat("z", 300), strings.Repeat("w", 70000)}
 
 func hasCodecSuffix(n string) bool {
 	for _, s := range []string{".gz", ".lz4", ".zst", ".br", ".bz2", ".age", ".pgp"} {
@@ -180,6 +180,9 @@ func (g *Gen) data(o *Op) {
 	g.seq++
 	o.Len = g.size()
 	o.Dist = dists[g.r.Intn(3)]
+	if o.Len >= 1024 && g.r.Intn(5) == 0 {
+		o.Dist = "tar"
+	}
 	o.DSeed = g.r.Uint64()
 }
 
@@ -224,9 +227,13 @@ func (g *Gen) exoticise(op *Op) {
 		}
 	}
 	switch op.K {
-	case "mkdir", "mkdirall", "create", "write", "read", "remove", "removeall", "rename", "chmod", "chown", "chtimes", "stat", "list":
-		if r.Intn(4) == 0 {
+	case "mkdir", "mkdirall", "create", "write", "read", "remove", "removeall", "rename", "chmod", "chown", "chtimes", "stat", "list", "opmove":
+		if r.Intn(4) == 0 && op.K != "opmove" {
 			op.Spell = 1 + r.Intn(6)
+		}
+		if op.K == "opmove" && r.Intn(3) == 0 {
+			// Operations.Move (the CLI's `operation move`) with a destination that is not clean: trailing slash, "//", "/./", "/x/../"
+			op.SpellB = []int{3, 4, 5, 6}[r.Intn(4)]
 		}
 		if op.K == "rename" && r.Intn(4) == 0 {
 			// source and destination spelled differently (relative source, absolute destination, ...)
@@ -561,6 +568,11 @@ func (g *Gen) next(t Tree) Op {
 					g.data(&m)
 					if g.o.Twins {
 						m.Perm, m.Len = 0o644, 300
+					} else if r.Intn(5) == 0 {
+						m.N = []int{-7, 9, 100000, 512}[r.Intn(4)] // the source changed size after it was scanned
+						if m.Len+m.N <= 0 {
+							m.N = 0 // a source that was empty when scanned is archived as empty: not a question of this monitor
+						}
 					}
 					ms = append(ms, m)
 					tt[p] = Entry{Kind: "f"}
@@ -588,6 +600,11 @@ func (g *Gen) next(t Tree) Op {
 			}
 			if g.o.Twins {
 				op.Perm, op.Len, op.Mt = 0o644, 300, 1600000000
+			} else if r.Intn(5) == 0 {
+				op.N = []int{-7, 9, 100000, 512}[r.Intn(4)]
+				if op.Len+op.N <= 0 {
+					op.N = 0
+				}
 			}
 			return op
 		case "opdelete":
